@@ -59,3 +59,33 @@ pub fn c03_keygen_from_rng(r1: ChaCha20Rng, r2: ChaCha20Rng, r3: ChaCha20Rng)
     assert(b.0 == hs(draw_bytes(s2, 32), ietf_keygen_salt()));
     assert(ske_scalar(c) == hs(draw_bytes(s3, 32), ietf_keygen_salt()) && ske_curve(c) == Bls12381::G2);
 }
+
+// ----- aggregates -------------------------------------------------------------------------------
+/// the aggregate of a list of signatures is their sum (the draft's Aggregate), whatever the list
+pub fn c03_aggregate_is_the_sum(sigs: &[Signature])
+    requires sigs@.len() >= 2, all_same_scheme(sigs@),
+{
+    let a = AggregateSignature::from_signatures(sigs);
+    assert(a is Ok);
+    assert(agg_point(a->Ok_0).dl() == accumulated(sigs@));
+    assert(agg_scheme(a->Ok_0) == sig_scheme(sigs@[0]));
+}
+
+/// the library accepts an aggregate against a (key, message) list exactly when the draft's
+/// AggregateVerify does (KeyValidate on every key, the Basic scheme's distinct-message rule,
+/// CoreAggregateVerify over `m`, `pk || m`, `m` under the NUL_/AUG_/POP_ tag) — so a list in which
+/// a (key, message) pair occurs twice is paired twice under AUG and POP, as the draft prescribes
+pub fn c03_aggregate_verify_is_the_draft_procedure(agg: &AggregateSignature, data: &[(PublicKey, &[u8])])
+    requires agg_point(*agg).dl() != 0,
+{
+    let v = agg.verify(data);
+    proof {
+        let l = data_pairs(data@);
+        let sig = agg_point(*agg);
+        lemma_agg_eq_iff(l, sig, DST_BASIC());
+        lemma_agg_eq_iff(l, sig, DST_POP_SIG());
+        lemma_aug_eq_iff(l, sig, DST_AUG());
+        lemma_distinct_prefix_iff(l, l.len() as int);
+    }
+    assert(v is Ok <==> ietf_aggregate_verify(agg_scheme(*agg), data_pairs(data@), agg_point(*agg)));
+}
